@@ -332,7 +332,9 @@ func (w *ResponseWriter) WriteMsg(m *dns.Msg) error {
 			// This is our OPT, options already added by setCookie/setNSID
 		case w.opt != nil:
 			// This is response OPT, need to merge our options
-			opt.Option = append(opt.Option, w.opt.Option...)
+			opt.Option = append(keepEDE(opt.Option), w.opt.Option...)
+		default:
+			opt.Option = keepEDE(opt.Option)
 		}
 
 		// Strip every EDNS0_SUBNET from the client-facing response.
@@ -407,6 +409,21 @@ func keepOPTOnly(extra []dns.RR) []dns.RR {
 // stripECS returns opts with every EDNS0_SUBNET entry removed.
 // Done in place when the result is the same length (common case:
 // nothing to strip) so the typical OPT write doesn't allocate.
+// keepEDE reduces the options a response arrived with to its extended
+// errors. A response that carries its own OPT is a forwarded upstream
+// reply: that server's cookie, padding, NSID or anything else it put there
+// belongs to its exchange with us, not to the client — the byte path
+// builds the client's OPT from scratch for the same reason.
+func keepEDE(opts []dns.EDNS0) []dns.EDNS0 {
+	keep := opts[:0]
+	for _, o := range opts {
+		if _, isEDE := o.(*dns.EDNS0_EDE); isEDE {
+			keep = append(keep, o)
+		}
+	}
+	return keep
+}
+
 func stripECS(opts []dns.EDNS0) []dns.EDNS0 {
 	keep := opts[:0]
 	for _, o := range opts {
